@@ -334,6 +334,9 @@ func run(t *testing.T, kind string) {
 					tr.Dirs = []string{"."}
 				}
 				op := gen.Op(rt, tr, names, 3, false)
+				if op.K == "chmod" && rapid.IntRange(0, 2).Draw(rt, "special") == 0 {
+					op.Perm |= rapid.SampledFrom(ops.SpecialBits).Draw(rt, "specialbit") // set-uid / set-gid / sticky travel with a mode too
+				}
 				if kind == "brokenlist" && rapid.Bool().Draw(rt, "listing") {
 					op = ops.Op{K: "readdir", P: rapid.SampledFrom(tr.Dirs).Draw(rt, "listed")}
 				}
